@@ -34,6 +34,9 @@ func genC18(r *R, n int, tier string, out *Out) {
 		if boosted() {
 			ln = 20 + r.Intn(100)
 		}
+		if r.chance(0.03) {
+			ln = pickOf(r, stressSizes) // the sizes at which an implementation may switch strategy (chunking, pooling, unrolling)
+		}
 		tag := ""
 		for j := 0; j < ln; j++ {
 			switch mode {
